@@ -706,6 +706,12 @@ func (s *Service) Handshake(peer boson.Address, recipient common.Address, signed
 		return chequePkg.ErrChequeInvalid
 	}
 
+	// compare and record under the lock that Pay holds while it issues and
+	// records a cheque, so that a cheque issued meanwhile is not overwritten
+	traffic := s.getTraffic(recipient)
+	traffic.Lock()
+	defer traffic.Unlock()
+
 	cheque, err := s.chequeStore.LastSendCheque(recipient)
 	if err != nil && err != chequePkg.ErrNoCheque {
 		return err
@@ -718,9 +724,6 @@ func (s *Service) Handshake(peer boson.Address, recipient common.Address, signed
 	}
 
 	if signedCheque.CumulativePayout.Cmp(cheque.CumulativePayout) > 0 {
-		traffic := s.getTraffic(recipient)
-		traffic.Lock()
-		defer traffic.Unlock()
 		return s.putSendCheque(context.Background(), &signedCheque.Cheque, recipient, traffic)
 	}
 
